@@ -295,6 +295,14 @@ func (r *vRun) onStray(op uint64, a []uint64, pre *vPre, what string) {
 	if r.prop == "c04" && r.c04InDomain(op, a, pre) {
 		r.mon("stray-access", "op %d %x made a stray access: %s", op, a, what)
 	}
+	if r.prop == "c06" && op == 13 && !r.weird && pre.fCode < 0x10 {
+		// no huge / unbacked entry on the path: the walk itself cannot stray.  A fault that is not a
+		// copy-on-write fault must end in a panic without the handler touching any page.
+		precond := vPresent(pre.fCode, pre.fEntry) && pre.fEntry&vRW == 0 && pre.fEntry&vCoW != 0
+		if !precond {
+			r.mon("non-cow-fault-touched-memory", "fault at %#x (leaf walk code %#x entry %#x) is not a copy-on-write fault but the handler accessed memory: %s", a[0], pre.fCode, pre.fEntry, what)
+		}
+	}
 }
 
 func (r *vRun) c04Post(op uint64, a []uint64, code, val uint64, rootBefore *[512]uint64, activeFrame uint64, pre *vPre) {
